@@ -5,14 +5,19 @@ from . import projtable as pt
 from .ref import model as M
 
 FILL = {
-    "ascii": ["first line", " (released)", "see also the changelog", "tail"],
-    "accent": ["préambule été", " (publié)", "voir à côté", "fin é"],
-    "euro": ["price € 5", " (€)", "€€", "end €"],
-    "astral": ["rocket \U0001F680", " (\U0001F680)", "\U00010348 gothic", "end \U0001F600"],
-    "tab": ["\tindented\tline", "\t# comment", "a\tb", "\ttail"],
-    "ctrl": ["form\x0cfeed", " \x01ctl", "bell\x07", "\x1besc"],
-    "regex": ["a.*b+c?(d)|e^f$g\\h", " [x]{2}", "(?P<n>.)\\1", "$^.*"],
-    "trailing": ["line with trailing spaces   ", " x  ", "   ", "tail \t "],
+    # [first line, right of an occurrence, a line between, last line, LEFT of an occurrence on its line]
+    "ascii": ["first line", " (released)", "see also the changelog", "tail", None],
+    "accent": ["préambule été", " (publié)", "voir à côté", "fin é", "clé é: "],
+    "euro": ["price € 5", " (€)", "€€", "end €", "€ "],
+    "astral": ["rocket \U0001F680", " (\U0001F680)", "\U00010348 gothic", "end \U0001F600", "\U0001F680 \U00010348: "],
+    "tab": ["\tindented\tline", "\t# comment", "a\tb", "\ttail", "\tkey\t"],
+    "ctrl": ["form\x0cfeed", " \x01ctl", "bell\x07", "\x1besc", "\x0c\x01 "],
+    "regex": ["a.*b+c?(d)|e^f$g\\h", " [x]{2}", "(?P<n>.)\\1", "$^.*", "(.*)|^x$ "],
+    "trailing": ["line with trailing spaces   ", " x  ", "   ", "tail \t ", "   "],
+    # text whose length changes under Unicode normalisation (NFC/NFKC), case mapping or stripping of invisible characters
+    "decomposed": ["e\u0301te\u0301 cafe\u0301", " (A\u030angstro\u0308m)", "\u1112\u1161\u11ab hangul jamo", "end n\u0303", "cle\u0301 \u1112\u1161\u11ab o\u0308: "],
+    "compat": ["\ufb01ne ligature \u2460", " (\u2122 \u212a)", "\u00df \u0130 \u0131 \u1e9e", "end \uff21\uff11", "\ufb03 \u00df\u0130 \u2168: "],
+    "invisible": ["zero\u200bwidth", " (\u200e\u00a0\u2028?)", "nbsp\u00a0\u00a0soft\u00adhyphen", "end \ufeff", "\u00a0\u200b\u00ad "],
 }
 NEAR_MISS = "near-miss"
 
@@ -41,10 +46,10 @@ def build_file(name, fps, arrangement, fill, regime, final_nl, bom=False, blank_
         seps = sep_list(regime, n - 1)
         return pt.FileSpec(name, list(fps), lines, seps, sep_list(regime, n)[-1] if final_nl else "")
     if arrangement == "single-line":
-        return pt.FileSpec(name, list(fps), [[("t", F[0] + " "), ("o", fps[0])]], [], sep_list(regime, 1)[0] if final_nl else "")
+        return pt.FileSpec(name, list(fps), [[("t", (F[4] if F[4] is not None else F[0] + " ")), ("o", fps[0])]], [], sep_list(regime, 1)[0] if final_nl else "")
     if arrangement == "own-lines":
         for k, fp in enumerate(fps):
-            pre = "" if fp.anchor_l else ("value: " if k % 2 == 0 else "\t- ")
+            pre = "" if fp.anchor_l else (F[4] if F[4] is not None and k % 2 == 0 else ("value: " if k % 2 == 0 else "\t- "))
             post = "" if fp.anchor_r else F[1]
             line = ([("t", pre)] if pre else []) + [("o", fp)] + ([("t", post)] if post else [])
             lines.append(line)
@@ -73,7 +78,7 @@ def build_file(name, fps, arrangement, fill, regime, final_nl, bom=False, blank_
     elif arrangement[0] == "repeat":
         for r in range(arrangement[1]):
             for fp in fps:
-                pre = "" if fp.anchor_l else f"copy {r}: "
+                pre = "" if fp.anchor_l else (f"copy {r}: " if F[4] is None else f"{F[4]}{r}: ")
                 post = "" if fp.anchor_r else F[1]
                 lines.append(([("t", pre)] if pre else []) + [("o", fp)] + ([("t", post)] if post else []))
             lines.append([("t", F[2])])
